@@ -54,8 +54,12 @@ func zzQuoRem(a, b *big.Int) (*big.Int, *big.Int) {
 	return q, r
 }
 
+// named types used by some of the generated expressions
+const zzPreamble = "type MyF64 f64\ntype MyF32 f32\ntype MyI64 i64\ntype MyU8 u8\n\n"
+
 func zzRun(t *testing.T, what string, body []string) []string {
 	var sb strings.Builder
+	sb.WriteString(zzPreamble)
 	// blocks of statements in separate functions keep each function small
 	nf := 0
 	for i := 0; i < len(body); i += 150 {
@@ -185,6 +189,14 @@ func TestVerifBounded(t *testing.T) {
 					stmts = append(stmts, fmt.Sprintf("\t{ a%d_%d: %s = %s; if (%s) != (a%d_%d %s %s) { println(\"DIFF\", %d) } }", i, id, ty, a, e, i, id, op, b, id))
 				}
 			}
+			// the same through a defined type whose underlying type is the float type
+			named := map[string]string{"f32": "MyF32", "f64": "MyF64"}[ty]
+			{
+				id := len(descr)
+				descr = append(descr, fmt.Sprintf("const c: %s = %s / 3 against run-time division in %s", named, a, ty))
+				stmts = append(stmts, fmt.Sprintf("\t{ const c%d: %s = %s; const d%d: %s = c%d / 3; v%d: %s = %s; vv%d := %s(v%d); ww%d := vv%d / 3; if c%d != vv%d || d%d != ww%d { println(\"DIFF\", %d) } }",
+					id, named, a, id, named, id, id, ty, a, id, named, id, id, id, id, id, id, id, id))
+			}
 			// a typed constant declaration holds the value rounded once to the type
 			id := len(descr)
 			descr = append(descr, fmt.Sprintf("const c: %s = %s against a variable of that type", ty, a))
@@ -265,6 +277,27 @@ func TestVerifBounded(t *testing.T) {
 						descr = append(descr, fmt.Sprintf("%s, exactly %s", e, q))
 						stmts = append(stmts, fmt.Sprintf("\t{ const c%d: i64 = %s; v%d: i64 = %s; if c%d != v%d { println(\"DIFF\", %d) } }", id, e, id, q, id, id, id))
 					}
+				}
+			}
+		}
+	}
+	// remainders and quotients with negative operands beyond int64 (truncated division: the remainder takes
+	// the sign of the dividend)
+	for _, a := range bigs {
+		for _, sa := range []int64{1, -1} {
+			for _, bv := range []int64{3, 10, -10, 1000003, -7} {
+				x := new(big.Int).Mul(a, big.NewInt(sa))
+				b := big.NewInt(bv)
+				q, r := zzQuoRem(x, b)
+				id := len(descr)
+				e := fmt.Sprintf("%s %% %s", lit(x), lit(b))
+				descr = append(descr, fmt.Sprintf("%s, exactly %s", e, r))
+				stmts = append(stmts, fmt.Sprintf("\t{ const c%d: i64 = %s; v%d: i64 = %s; if c%d != v%d { println(\"DIFF\", %d) } }", id, e, id, r, id, id, id))
+				if q.IsInt64() {
+					id = len(descr)
+					e = fmt.Sprintf("%s / %s", lit(x), lit(b))
+					descr = append(descr, fmt.Sprintf("%s, exactly %s", e, q))
+					stmts = append(stmts, fmt.Sprintf("\t{ const c%d: i64 = %s; v%d: i64 = %s; if c%d != v%d { println(\"DIFF\", %d) } }", id, e, id, q, id, id, id))
 				}
 			}
 		}
